@@ -1,4 +1,5 @@
-(* C14 -- witnesses where the faithful implementation model does NOT meet the full statement (known finding
+(* C14 -- witnesses where the faithful implementation model (with the decisions of the PINNED code: count taken from the
+   last yielded slice, 1-D isna array not reshaped -- both `false`, as Gen/Gen_c14.v records them) does NOT meet the full statement (known finding
    C14-bfill-axis1-bridge-count): TypeBlocks._fillna_directional_axis_1 walking backward takes the bridging count that
    leaves a 2-D block from the LAST yielded slice (the right-most run) although the block is left through its first column. *)
 Require Import SF.Prelude SF.Value SF.Missing.
@@ -6,7 +7,7 @@ Require Import SF.Prelude SF.Value SF.Missing.
 (* row [NaN | NaN NaN 1 NaN 2], limit 2: three cells are filled from `1` although the limit is 2 *)
 Theorem C14_bfill_axis1_unguarded_refuted :
   exists (limit : Z) (bs : list (rblock Z)), 0 <= limit /\
-    M_dir_row false limit bs <> S_bfill limit (concat (map rb_cells bs)).
+    M_dir_row false false limit bs <> S_bfill limit (concat (map rb_cells bs)).
 Proof.
   exists 2, [RB1 true None; RB2 true [None; None; Some 1; None; Some 2]].
   split; [lia | vm_compute; discriminate].
@@ -16,9 +17,18 @@ Print Assumptions C14_bfill_axis1_unguarded_refuted.
 (* row [NaN | NaN 1 NaN NaN 2], limit 2: the first cell is NOT filled although only one missing cell lies between it and `1` *)
 Theorem C14_bfill_axis1_underfill_refuted :
   exists (limit : Z) (bs : list (rblock Z)), 0 <= limit /\
-    M_dir_row false limit bs <> S_bfill limit (concat (map rb_cells bs)).
+    M_dir_row false false limit bs <> S_bfill limit (concat (map rb_cells bs)).
 Proof.
   exists 2, [RB1 true None; RB2 true [None; Some 1; None; None; Some 2]].
   split; [lia | vm_compute; discriminate].
 Qed.
 Print Assumptions C14_bfill_axis1_underfill_refuted.
+
+(* finding C14-dropna-axis1-single-1d-block: a one-column frame held as a single 1-D block, dropna(axis=1): the keep mask for
+   COLUMNS is the per-row vector [true; false] (length 2 for 1 column), where the specification keeps/drops the one column *)
+Require Import SF.MissingCheck.
+Theorem C14_dropna_axis1_single_1d_refuted :
+  exists (use_any : bool) (nrows : nat) (cols : list (list (option Z))),
+    M_dropna_keep false true use_any nrows true (map (map is_missing) cols) <> S_keep true use_any nrows cols.
+Proof. exists true, 2%nat, [[Some 1; None]]. vm_compute. discriminate. Qed.
+Print Assumptions C14_dropna_axis1_single_1d_refuted.
